@@ -211,6 +211,9 @@ func run(c Case) (pbt.Outcome, error) {
 		errs.Addf("panic in thread %s: %s\n%s", p.Thread, p.Value, p.Stack)
 	}
 	if res.Deadlock || res.Hang || res.StepLimit {
+		if res.Hang {
+			errs.Poison() // a thread is still blocked inside the library: stop this process after saving the case
+		}
 		errs.Addf("threads did not finish: deadlock=%v hang=%v steplimit=%v: %s", res.Deadlock, res.Hang, res.StepLimit, res.Detail)
 		return out, errs.Err()
 	}
